@@ -53,7 +53,7 @@ func newRawServerConn(
 		qlogger:        qlogger,
 		logger:         logger,
 	}
-	c.rawConn = *newRawConn(conn, enableDatagrams, c.onStreamsEmpty, nil, qlogger, logger)
+	c.rawConn = *newRawConn(conn, enableDatagrams, c.onStreamsEmpty, c.handleControlStream, qlogger, logger)
 	if idleTimeout > 0 {
 		c.idleTimer = time.AfterFunc(idleTimeout, c.onIdleTimer)
 	}
@@ -269,6 +269,33 @@ func (c *RawServerConn) rejectWithHeaderFieldsTooLarge(str *stateTrackingStream)
 	r := newResponseWriter(hstr, &c.rawConn, false, c.logger)
 	r.WriteHeader(http.StatusRequestHeaderFieldsTooLarge)
 	r.Flush()
+}
+
+// handleControlStream processes the client's control stream after the SETTINGS frame was received.
+// The control stream must stay open for the lifetime of the connection, and all frames sent on it need to be parsed:
+// Reserved frame types and frames that are not allowed on the control stream are connection errors,
+// see sections 6.2.1 and 7.2 of RFC 9114.
+func (c *RawServerConn) handleControlStream(str *quic.ReceiveStream, fp *frameParser) {
+	for {
+		f, err := fp.ParseNext(c.qlogger)
+		if err != nil {
+			var serr *quic.StreamError
+			if err == io.EOF || errors.As(err, &serr) {
+				c.rawConn.CloseWithError(quic.ApplicationErrorCode(ErrCodeClosedCriticalStream), "")
+				return
+			}
+			// This is a no-op if the connection was already closed (or if the frame parser closed it).
+			c.rawConn.CloseWithError(quic.ApplicationErrorCode(ErrCodeFrameError), "")
+			return
+		}
+		// GOAWAY is the only frame a client is allowed to send at this point.
+		// It carries a push ID. Since we never push, there's nothing to do.
+		// Frame types that we don't need to act upon are skipped by the frame parser.
+		if _, ok := f.(*goAwayFrame); !ok {
+			c.rawConn.CloseWithError(quic.ApplicationErrorCode(ErrCodeFrameUnexpected), "")
+			return
+		}
+	}
 }
 
 // HandleUnidirectionalStream handles an incoming unidirectional stream.
